@@ -12,6 +12,9 @@ structure FragInv (P : Nat) (d : Dec) : Prop where
   size_eq : d.fragmentsSize = totalLen d.fragments
   size_le : d.fragmentsSize ≤ maxAU + P
   empty   : d.fragmentsSize = 0 → d.fragments = []
+  /-- every stored fragment but the header (and possibly the first data fragment) is non-empty, so
+  the NUMBER of stored fragments is bounded by the byte size (false before /repo commit fc590d9) -/
+  count_le : d.fragments.length ≤ d.fragmentsSize + 1
 
 /-- the part of the invariant about the access unit being collected -/
 structure FbInv (d : Dec) : Prop where
@@ -34,7 +37,7 @@ def NStep (P : Nat) (d : Dec) (r : Dec × NRes) : Prop :=
   ∀ ns, r.2 = .nalus ns → AllNonempty ns
 
 theorem fragInv_reset (P : Nat) (d : Dec) : FragInv P d.resetFragments :=
-  ⟨rfl, by simp [Dec.resetFragments], fun _ => rfl⟩
+  ⟨rfl, by simp [Dec.resetFragments], fun _ => rfl, by simp [Dec.resetFragments]⟩
 
 theorem nstep_reset_err (P : Nat) (d : Dec) : NStep P d (d.resetFragments, .err) :=
   ⟨fragInv_reset P d, rfl, rfl, by simp⟩
@@ -43,26 +46,33 @@ theorem fuaStart_step (P : Nat) (d : Dec) (seq : UInt16) (b0 b1 : UInt8) (data :
     (hp : data.length + 2 ≤ P) : NStep P d (fuaStart d seq b0 b1 data) := by
   unfold fuaStart
   split
-  · refine ⟨⟨rfl, by simp [Dec.resetFragments], fun _ => rfl⟩, rfl, rfl, ?_⟩
+  · refine ⟨⟨rfl, by simp [Dec.resetFragments], fun _ => rfl, by simp [Dec.resetFragments]⟩, rfl, rfl, ?_⟩
     intro ns h
     simp only [NRes.nalus.injEq] at h
     rw [← h]; exact splitNALUsF_nonempty _ _
-  · exact ⟨⟨by simp [totalLen]; omega, by simp; omega, by simp⟩, rfl, rfl, by simp⟩
+  · exact ⟨⟨by simp [totalLen]; omega, by simp; omega, by simp, by simp⟩, rfl, rfl, by simp⟩
 
 theorem fuaCont_step (P : Nat) (d : Dec) (seq : UInt16) (b1 : UInt8) (data : Bytes)
     (hi : FragInv P d) : NStep P d (fuaCont d seq b1 data) := by
-  obtain ⟨h1, h2, h3⟩ := hi
+  obtain ⟨h1, h2, h3, h4⟩ := hi
   unfold fuaCont
   dsimp only
   split
-  · split <;> exact ⟨⟨h1, h2, h3⟩, rfl, rfl, by simp⟩
+  · split <;> exact ⟨⟨h1, h2, h3, h4⟩, rfl, rfl, by simp⟩
   · split
     · exact nstep_reset_err P d
     · split
       · exact nstep_reset_err P d
       · split
-        · exact ⟨⟨by simp [h1], by simp; omega, by simp; omega⟩, rfl, rfl, by simp⟩
-        · refine ⟨⟨rfl, by simp [Dec.resetFragments], fun _ => rfl⟩, rfl, rfl, ?_⟩
+        · have cont_inv : FragInv P
+              { d with fragmentsSize := d.fragmentsSize + data.length,
+                       fragments := pushFrag d.fragments data,
+                       fragmentNextSeqNum := d.fragmentNextSeqNum + 1 } := by
+            have hl := pushFrag_length d.fragments data
+            exact ⟨by simp [pushFrag_totalLen, h1], by simp; omega,
+              by simp; intro hz hd; omega, by simp only; omega⟩
+          exact ⟨cont_inv, rfl, rfl, by simp⟩
+        · refine ⟨⟨rfl, by simp [Dec.resetFragments], fun _ => rfl, by simp [Dec.resetFragments]⟩, rfl, rfl, ?_⟩
           intro ns h
           simp only [NRes.nalus.injEq] at h
           rw [← h]; exact splitNALUsF_nonempty _ _
@@ -85,7 +95,7 @@ theorem decodeSTAPA_step (P : Nat) (d : Dec) (tl : Bytes) : NStep P d (decodeSTA
   · rename_i ns hagg
     split
     · exact nstep_reset_err P d
-    · refine ⟨⟨rfl, by simp [Dec.resetFragments], fun _ => rfl⟩, rfl, rfl, ?_⟩
+    · refine ⟨⟨rfl, by simp [Dec.resetFragments], fun _ => rfl, by simp [Dec.resetFragments]⟩, rfl, rfl, ?_⟩
       intro ns' h
       simp only [NRes.nalus.injEq] at h
       rw [← h]
@@ -105,8 +115,8 @@ theorem decodeNALUs0_step (P : Nat) (d : Dec) (p : Pkt) (hi : FragInv P d)
     · split
       · exact decodeSTAPA_step P d tl
       · split
-        · exact ⟨⟨rfl, by simp [Dec.resetFragments], fun _ => rfl⟩, rfl, rfl, by simp⟩
-        · refine ⟨⟨rfl, by simp [Dec.resetFragments], fun _ => rfl⟩, rfl, rfl, ?_⟩
+        · exact ⟨⟨rfl, by simp [Dec.resetFragments], fun _ => rfl, by simp [Dec.resetFragments]⟩, rfl, rfl, by simp⟩
+        · refine ⟨⟨rfl, by simp [Dec.resetFragments], fun _ => rfl, by simp [Dec.resetFragments]⟩, rfl, rfl, ?_⟩
           intro ns h
           simp only [NRes.nalus.injEq] at h
           rw [← h, hpl]
@@ -230,12 +240,12 @@ theorem finishNALUs_step (P : Nat) (d d1 : Dec) (ns : List Bytes) (hi : FragInv 
   · rename_i hlen
     split
     · rename_i m ns1 hr
-      refine ⟨⟨hi.1, hi.2, hi.3⟩, hfb, ?_⟩
+      refine ⟨⟨hi.1, hi.2, hi.3, hi.4⟩, hfb, ?_⟩
       intro ns2 h
       simp only [NRes.nalus.injEq] at h
       rw [← h]
       exact removeAnnexB_ok _ ns m ns1 (by intro h0; simp [h0] at hlen) hall hr
-    · exact ⟨⟨hi.1, hi.2, hi.3⟩, hfb, by simp⟩
+    · exact ⟨⟨hi.1, hi.2, hi.3, hi.4⟩, hfb, by simp⟩
 
 theorem decodeNALUs_step (P : Nat) (d : Dec) (p : Pkt) (hi : FragInv P d)
     (hp : p.payload.length ≤ P) : NStep' P d (decodeNALUs d p) := by
@@ -274,7 +284,8 @@ theorem fragInv_of_fragPart (P : Nat) (d d' : Dec) (h : fragPart d' = fragPart d
     FragInv P d' := by
   simp only [fragPart, Prod.mk.injEq] at h
   obtain ⟨h1, h2, _⟩ := h
-  exact ⟨by rw [h2, h1]; exact hi.1, by rw [h2]; exact hi.2, by rw [h2, h1]; exact hi.3⟩
+  exact ⟨by rw [h2, h1]; exact hi.1, by rw [h2]; exact hi.2, by rw [h2, h1]; exact hi.3,
+    by rw [h2, h1]; exact hi.4⟩
 
 theorem addToFrameBuffer_spec (d : Dec) (ns : List Bytes) (ts : UInt32) (hi : FbInv d)
     (hall : AllNonempty ns) :
